@@ -11,6 +11,8 @@ sys.path.insert(0, HERE)
 import gen                                                       # noqa: E402
 import observe as ob                                             # noqa: E402
 from observe import pyham, ag                                    # noqa: E402
+import saxtrace                                                  # noqa: E402
+saxtrace.install()        # lock-step trace of the streaming parser (wrappers in this process; /repo is not edited)
 
 class Infra(Exception):
     """infrastructure problem: exit 2, never a violation"""
@@ -113,6 +115,7 @@ def nwk_of(D, with_internal=True, quoted=False):
 
 def load_py(D, groups=None, species=None, **kw):
     """load the dataset with pyham (in-memory string transport); returns the Ham object"""
+    saxtrace.reset()
     style = D.meta.get('style')
     if species is not None and style and style.get('late_species'):
         style = dict(style, late_species=None)        # (positions refer to D.species, not to the overriding list)
@@ -137,6 +140,17 @@ def load_py(D, groups=None, species=None, **kw):
                 f.write(nwk_of(D))
         return pyham.Ham(tree_file=path, tree_format='newick', hog_file=xml, orthoXML_as_string=True, **kw)
     return pyham.Ham(tree_file=nwk_of(D), hog_file=xml, orthoXML_as_string=True, **kw)
+
+def sax_of_last_load(pytags):
+    """the trace of the load that has just been made: puts the state sequence read off pyham's parser object into `pytags`
+    (a dict tag -> [payload]) and returns (queries, tags) for the driver, which replays the recorded calls through the
+    stack machine of Model/Sax.lean"""
+    t = saxtrace.last()
+    if t is None or t.end.startswith('err-at-foreign-call'):
+        return [], []
+    pytags.setdefault('saxtr', []).append(t.text() + ('!' + t.problems[0] if t.problems else ''))
+    pytags.setdefault('saxev', []).append('1')
+    return [saxtrace.query(t)], ['saxtr', 'saxev']
 
 def try_load(D, **kw):
     try:
